@@ -148,6 +148,81 @@ def api_case(n, markers, perm, avail=None):
   return res
 
 
+def replay_reassign(markers, w):
+  from atsim.potentials._multi_range_potential_form import Multi_Range_Defn, create_Multi_Range_Potential_Form
+  r, q = float(w.get("r", 0.0)), float(w.get("q", 0.0))
+  S = [float(w.get("s%d" % i, 0.0)) for i in range(2)]
+
+  class F(object):
+    def __init__(self, i):
+      self.i = i
+
+    def __call__(self, x):
+      return 10.0 * (self.i + 1) + 0.5 * x * x
+
+    def deriv(self, x):
+      return 100.0 * (self.i + 1) + x
+
+    def deriv2(self, x):
+      return 1000.0 * (self.i + 1) + 1.0
+  fs = [F(0), F(1)]
+  bad = []
+  for prior in ([r], [q], [q, r], [r, q, r]):
+    mr = create_Multi_Range_Potential_Form(*[Multi_Range_Defn(markers[i], S[i], fs[i]) for i in range(2)])
+    for x in prior:
+      mr(x)
+      mr.deriv(x)
+    mr.range_defns = [Multi_Range_Defn(markers[i], S[i], fs[1 - i]) for i in range(2)]
+    got = (mr(r), mr.deriv(r), mr.deriv2(r))
+    b = concrete_oracle(markers, S, r, 0)
+    if b == "ambiguous":
+      continue
+    f = fs[1 - b] if b is not None else None
+    want = (0.0, 0.0, 0.0) if f is None else (f(r), f.deriv(r), f.deriv2(r))
+    if any(abs(g - w_) > 1e-6 * max(1.0, abs(w_)) for g, w_ in zip(got, want)):
+      bad.append("evaluated at %r, then range_defns assigned anew (the two functions exchanged), at r=%r starts=%r markers=%r: got %r expected %r" % (
+        prior, r, S, markers, got, want))
+  return (bool(bad), "; ".join(bad[:2]) or "real code agrees with the statement at the witness", dict(kind="multirange_reassign", markers=list(markers), r=r, q=q, starts=S, mismatches=bad[:4]))
+
+
+def reassign_case(markers):
+  """The ranges of an object that has been evaluated are replaced through the public `range_defns` property: what it gives
+  afterwards is the statement's selection among the NEW ranges (no trace of the earlier evaluations or ranges)."""
+  res = new_result("api ranges replaced after evaluation, markers=%s" % "".join("G" if m == ">=" else "g" for m in markers))
+  from atsim.potentials._multi_range_potential_form import Multi_Range_Defn, create_Multi_Range_Potential_Form
+
+  def fn():
+    r, q = sym("r"), sym("q")
+    S = [sym("s%d" % i) for i in range(2)]
+    fs = [uf("f%d" % i, deriv=True, deriv2=True) for i in range(2)]
+    mr = create_Multi_Range_Potential_Form(*[Multi_Range_Defn(markers[i], S[i], fs[i]) for i in range(2)])
+    mr(r)
+    mr.deriv(r)
+    mr(q)
+    mr(r)
+    # the two functions change places
+    mr.range_defns = [Multi_Range_Defn(markers[i], S[i], fs[1 - i]) for i in range(2)]
+    return [term(mr(r)), term(mr.deriv(r)), term(mr.deriv2(r))]
+
+  r = z3.Real("r")
+  S = [z3.Real("s%d" % i) for i in range(2)]
+
+  def build(path, wrong=False):
+    if path.exc is not None:
+      raise Structural("exception", "%s: %s" % (type(path.exc).__name__, path.exc))
+    vcs = []
+    for kind in range(3):
+      # `wrongshift` of the oracle is the exchanged assignment: the genuine obligation here, the unshifted one is the negative twin
+      vcs += oracle_vcs("reassigned", path.value[kind], 2, markers, kind, r, S, wrongshift=not wrong)
+    return vcs
+
+  def replay(v, w, path, structural):
+    return replay_reassign(markers, w)
+
+  explore_and_check(res, fn, build, replay=replay, negative=lambda p: build(p, wrong=True), explorer_kw=dict(max_paths=20000), max_seconds=300)
+  return res
+
+
 def concrete_oracle(markers, starts, r, kind):
   best = None
   for i, (m, s) in enumerate(zip(markers, starts)):
@@ -380,6 +455,7 @@ def marker_siblings_case():
 
 def cases(tier, seed=0):
   extra_ = [Case("marker siblings", marker_siblings_case)]
+  extra_ += [Case("reassigned %s%s" % (a, b), reassign_case, markers=(a, b)) for a in (">", ">=") for b in (">", ">=")]
   cs = []
   maxn = 3 if tier == "quick" else 4
   for n in range(1, maxn + 1):
